@@ -25,6 +25,7 @@ CURATED = {
     "petersen": (10, [(i, (i + 1) % 5) for i in range(5)] + [(i, i + 5) for i in range(5)] + [(5 + i, 5 + (i + 2) % 5) for i in range(5)]),
     "C4+C4": (8, [(0, 1), (1, 2), (2, 3), (3, 0), (4, 5), (5, 6), (6, 7), (7, 4)]),
     "C8-ring": (8, [(i, (i + 1) % 8) for i in range(8)]),
+    "chain-11": (11, [(i, i + 1) for i in range(10)]),
 }
 
 
@@ -86,7 +87,7 @@ def pipeline_jobs(factory, tier, *, relists=("atoms", "bonds"), elem=True, curat
     js = shape_strata(module, factory, tier, extra=extra, quick=strata, thorough=strata, max_seconds=ms)
     if curated:
         for name, (n, bonds) in CURATED.items():
-            if not thorough and n > 8:
+            if not thorough and n > 8 and not (name == "chain-11" and factory in ("c03", "c05", "c11")):
                 continue
             par = dict(extra, n=n, bonds=[list(b) for b in bonds], K_m=(3 if n <= 6 else 2) if thorough else (2 if n <= 6 else 1),
                        K_r=1 if thorough and n <= 8 else 0)
